@@ -347,6 +347,15 @@ func init() {
 				ls = &lockState{}
 				e.locks[k] = ls
 			}
+			// jobs run with param preempt_locks=1: every lock acquisition is a scheduling point
+			// (critical-section granularity interleavings of the goroutines of the harness)
+			if e.params["preempt_locks"] == 1 && c != nil && len(e.gs) > 1 {
+				if c.selState == 0 {
+					c.selState = 1
+					e.block("yield", func() bool { return true })
+				}
+				c.selState = 0
+			}
 			if write {
 				if ls.writer || ls.readers > 0 {
 					e.block("mutex "+k, func() bool { return !ls.writer && ls.readers == 0 })
